@@ -195,7 +195,7 @@ func (c *Ctx) trueImpliesRange(fn *ssa.Function, param *ssa.Parameter) (intRange
 		}
 		join(c.rangeFromFacts(c.factsAt(at), param))
 	}
-	for _, b := range fn.Blocks {
+	for _, b := range blocksOf(fn) {
 		if ret, ok := b.Instrs[len(b.Instrs)-1].(*ssa.Return); ok && len(ret.Results) == 1 {
 			if bt, ok := ret.Results[0].Type().Underlying().(*types.Basic); !ok || bt.Kind() != types.Bool {
 				return intRange{}, false
